@@ -205,9 +205,12 @@ static void fiber_event_wake_sleepers(fiber_manager_t* manager,
     do {
       assert(to_wake->waiter);
       fiber_t* const to_schedule = (fiber_t*)to_wake->waiter;
+      // the node lives on the sleeper's stack: once the sleeper is scheduled
+      // it may run (on another thread) and pop that frame
+      waiter_el_t* const next = to_wake->next;
       to_schedule->state = FIBER_STATE_READY;
       fiber_manager_schedule(manager, to_schedule);
-      to_wake = to_wake->next;
+      to_wake = next;
     } while (to_wake);
   }
 
